@@ -255,15 +255,8 @@ fn fails_same(env: &Env, plan: &Plan, clause: &str, execs: &mut u64) -> Option<V
 }
 
 fn simpler_cfgs(c: &CfgSpec) -> Vec<CfgSpec> {
+    // (the data profile is simplified for the whole plan at once, see minimise)
     let mut v = Vec::new();
-    match c.data {
-        DataKind::Full => {
-            v.push(CfgSpec { data: DataKind::None, ..*c });
-            v.push(CfgSpec { data: DataKind::Small, ..*c });
-        }
-        DataKind::Small => v.push(CfgSpec { data: DataKind::None, ..*c }),
-        DataKind::None => {}
-    }
     for b in 0..11 {
         if c.opts & (1 << b) != 0 {
             v.push(CfgSpec { opts: c.opts & !(1 << b), ..*c });
@@ -410,6 +403,32 @@ pub fn minimise(env: &Env, plan: &Plan, v0: &Violation, max_execs: u64, max_time
                 }
                 let mut p = best.clone();
                 p.ops[i] = c;
+                if let Some(v) = fails_same(env, &p, &clause, &mut execs) {
+                    best = p;
+                    best_v = v;
+                    progress = true;
+                    break;
+                }
+            }
+        }
+        // the data profile, for all hosts and updates at once (update_engine's contract is
+        // "same data directory", so it is never changed on one op only)
+        for target in [DataKind::None, DataKind::Small] {
+            if !budget_ok(execs) {
+                break;
+            }
+            let mut p = best.clone();
+            let mut changed = false;
+            for op in p.ops.iter_mut() {
+                if let Op::Spawn { cfg, .. } | Op::Update { cfg, .. } = op {
+                    let simpler = matches!((cfg.data, target), (DataKind::Full, _) | (DataKind::Small, DataKind::None));
+                    if simpler {
+                        cfg.data = target;
+                        changed = true;
+                    }
+                }
+            }
+            if changed {
                 if let Some(v) = fails_same(env, &p, &clause, &mut execs) {
                     best = p;
                     best_v = v;
